@@ -17,14 +17,14 @@ import (
 type NodeKind int
 
 const (
-	KInstr    NodeKind = iota // ordinary instruction (including opaque calls, go, defer registration)
-	KCall                     // call whose callee body is inlined: Succs[0] is the callee's entry
-	KAfter                    // landing node after an inlined call / higher-order call (binds the result)
-	KExit                     // never-returning call or panic: no successors
-	KRootRet                  // return of the root function: normal termination of the analysed entry
-	KRet                      // return of an inlined callee
-	KHOHead                   // synthetic head of a callback invoked 0..n times by a modelled higher-order function
-	KDeferSkip                // synthetic: a conditionally registered defer may not run
+	KInstr     NodeKind = iota // ordinary instruction (including opaque calls, go, defer registration)
+	KCall                      // call whose callee body is inlined: Succs[0] is the callee's entry
+	KAfter                     // landing node after an inlined call / higher-order call (binds the result)
+	KExit                      // never-returning call or panic: no successors
+	KRootRet                   // return of the root function: normal termination of the analysed entry
+	KRet                       // return of an inlined callee
+	KHOHead                    // synthetic head of a callback invoked 0..n times by a modelled higher-order function
+	KDeferSkip                 // synthetic: a conditionally registered defer may not run
 )
 
 type Ctx struct {
